@@ -302,4 +302,66 @@ theorem loadDoc_snap (m : Mem) (h : WF m) : loadDoc (snap m) = stripEph m := by
     simp only [Function.comp, loadTopic, snapTopic] at hch ⊢
     simp [h1, h2, hch]
 
+/-! ### which topics exist after the load -/
+
+theorem names_modTopic (m : Mem) (t : String) (f : Topic → Topic) (hn : ∀ x, (f x).name = x.name) :
+    (modTopic m t f).map (·.name) = m.map (·.name) := by
+  unfold modTopic
+  exact modFirst_map (fun x => x.name == t) f (·.name) hn m
+
+theorem mem_names_ensureTopic (m : Mem) (n t : String) :
+    t ∈ (ensureTopic m n).map (·.name) ↔ t ∈ m.map (·.name) ∨ t = n := by
+  unfold ensureTopic
+  split
+  · rename_i h
+    constructor
+    · intro ht; exact Or.inl ht
+    · rintro (ht | ht)
+      · exact ht
+      · subst ht
+        obtain ⟨x, hx, hxe⟩ := List.any_eq_true.mp h
+        exact List.mem_map.mpr ⟨x, hx, by simpa using hxe⟩
+  · simp
+
+theorem names_loadTopicEntry (m : Mem) (e : TopicM) :
+    (loadTopicEntry m e).map (·.name) = (if validName e.name then ensureTopic m e.name else m).map (·.name) := by
+  unfold loadTopicEntry
+  split
+  · refine (names_modTopic _ _ _ (by intro x; rfl)).trans ?_
+    split
+    · exact names_modTopic _ _ _ (by intro x; rfl)
+    · rfl
+  · rfl
+
+theorem mem_names_foldl (d : Doc) : ∀ (m : Mem) (t : String),
+    t ∈ (d.foldl loadTopicEntry m).map (·.name) ↔
+      t ∈ m.map (·.name) ∨ ∃ e ∈ d, e.name = t ∧ validName t = true := by
+  induction d with
+  | nil => intro m t; simp
+  | cons e rest ih =>
+    intro m t
+    rw [List.foldl_cons, ih, names_loadTopicEntry]
+    by_cases hv : validName e.name = true
+    · simp only [hv, if_true, mem_names_ensureTopic]
+      constructor
+      · rintro ((h | h) | ⟨x, hx, hxe⟩)
+        · exact Or.inl h
+        · exact Or.inr ⟨e, List.mem_cons_self .., h.symm, h ▸ hv⟩
+        · exact Or.inr ⟨x, List.mem_cons_of_mem _ hx, hxe⟩
+      · rintro (h | ⟨x, hx, hxe⟩)
+        · exact Or.inl (Or.inl h)
+        · rcases List.mem_cons.mp hx with h1 | h1
+          · subst h1; exact Or.inl (Or.inr hxe.1.symm)
+          · exact Or.inr ⟨x, h1, hxe⟩
+    · simp only [hv]
+      constructor
+      · rintro (h | ⟨x, hx, hxe⟩)
+        · exact Or.inl h
+        · exact Or.inr ⟨x, List.mem_cons_of_mem _ hx, hxe⟩
+      · rintro (h | ⟨x, hx, hxe⟩)
+        · exact Or.inl h
+        · rcases List.mem_cons.mp hx with h1 | h1
+          · subst h1; exact absurd (hxe.1 ▸ hxe.2) hv
+          · exact Or.inr ⟨x, h1, hxe⟩
+
 end Nsq.Proofs.MetaLoad
